@@ -195,9 +195,9 @@ Print Assumptions C07_prefix_phrases_longer_first.
 (** ... but they are NOT confined to prefixes on a complete segmentation (known finding, replayed on the real code) *)
 Theorem C07_table_prefix_phrases_off_segmentation_witness :
   map (fun c => (k_end c, k_text c))
-      (table_query (fun _ _ => Some f1_sentence) false true f1_prism f1_syls f1_table [39%N] f1_input)
+      (table_query (fun _ _ => Some f1_sentence) false true 1 f1_prism f1_syls f1_table [39%N] f1_input)
   = [(4, [68%N; 66%N]); (3, [68%N]); (2, [67%N]); (1, [66%N])] /\
-  wg_path_ok (table_wgraph f1_prism f1_syls f1_table [39%N] f1_input) 0 4 f1_sentence = true /\
+  wg_path_ok (table_wgraph 1 f1_prism f1_syls f1_table [39%N] f1_input) 0 4 f1_sentence = true /\
   common_prefix f1_prism (skipn 1 f1_input) = [] /\ common_prefix f1_prism (skipn 2 f1_input) = [].
 Proof. exact table_prefix_phrases_off_segmentation. Qed.
 Print Assumptions C07_table_prefix_phrases_off_segmentation_witness.
